@@ -21,7 +21,11 @@ META = {
         "PostOrderIterator order, operations reversed), delete_dead, region_dce, DeadCodeElimination.apply and the "
         "trivially-dead erasure of the rewrite walkers, for every region tree with unique operation ids: "
         "wbd_spec (an operation accepted by would_be_trivially_dead is no terminator, no symbol, has known "
-        "effects that are all READ or ALLOC of a value defined inside it); liveness_converges (the loop ends "
+        "effects that are all READ or ALLOC of a value defined inside it); wbd_recursive_iff / "
+        "wbd_recursive_child_observable (an operation with recursive effects is accepted exactly if it is no "
+        "terminator, no symbol, its own effects are harmless and EVERY operation directly in any block of any of "
+        "its regions has known effects that are all harmless - no region, block or position is exempt; one "
+        "unknown or observable child anywhere keeps it); liveness_converges (the loop ends "
         "within #ops+1 passes) and live_iff_least (its result is exactly the least set LV containing every "
         "operation of a post-order-yielded block of the top region or of a region of a live operation that is "
         "not would-be-trivially-dead or has a live user); dce_sound / dce_sound_removed (region_dce keeps every "
@@ -37,15 +41,19 @@ META = {
         "every other operation appends to the log, the kept operations produce the same log and the same value "
         "for every kept operation and outer value). The model is tied to /repo by running the real functions on "
         "generated modules (test-dialect and harness-defined effect-kind operations with nested multi-block "
-        "regions, use cycles, unreachable blocks; func/arith/cf/scf programs with external calls) and comparing "
+        "regions, use cycles, unreachable blocks; one operation with recursive effects holding a harmless and an "
+        "observable item at every ordered pair of (region, block) positions; func/arith/cf/scf programs with "
+        "external calls; scf.if / scf.while / scf.for / scf.index_switch / affine.if with memref.load, "
+        "memref.store and external calls in every combination of their regions) and comparing "
         "would_be_trivially_dead of every operation, the live set and the number of passes, the module after "
         "region_dce (and its returned flag), after the dce pass (and its number of region_dce calls), after the "
         "walker-based erasure (dce(), GreedyRewritePatternApplier with no pattern) and after the canonicalize-"
         "style walker with region_dce as post-walk function with the Lean driver; an independent oracle written "
         "from the property's sentence (own effect table by operation name, own reachability and least-fixpoint "
         "computation) judges every before/after pair, and the Lean reference semantics `sem` (and, for a "
-        "subset, the xDSL interpreter) evaluates the func/arith/cf/scf programs before and after every variant "
-        "on three inputs each (results and effect log)."
+        "subset, the xDSL interpreter) evaluates the func/arith/cf/scf(/memref) programs before and after every "
+        "variant on three inputs each (results - incl. the buffer cells the region operations store to - and "
+        "effect log)."
     ),
     "technique": "Lean 4 fixpoint/invariant proofs + differential correspondence + independent removed-set oracle + reference-semantics translation validation",
     "level_note": (
@@ -68,8 +76,8 @@ META = {
     "rule": (
         "stream B: seeded random specs (1-5 module-level operations, nesting depth <= 2, 1-4 blocks per "
         "region, 20 operation kinds incl. unregistered operations, also as block-ending branches with successors) plus ALL programs of one block with n <= 2 (quick) / n <= 3 (thorough) "
-        "operations over 7 kinds (5 for n = 3) x every single-operand choice, plus fixed multi-block shapes whose blocks are only reachable through unregistered branch-like operations; stream A: seeded proggen programs with "
-        "0-3 appended unreachable blocks, 3 input vectors each. A case is non-trivial if some variant "
+        "operations over 7 kinds (5 for n = 3) x every single-operand choice, plus fixed multi-block shapes whose blocks are only reachable through unregistered branch-like operations; positions: ONE operation with recursive effects and an unused result, 3 regions x 2 chained blocks (thorough: 9 region shapes up to 4 regions, also c13.rec_read, unchained blocks, triples), a harmless item (none/read/own-result alloc/nested rec that reads) x an observable item (write/free/unknown/nested rec whose 2nd region writes; thorough also alloc/rw/unregistered/symbol) at EVERY ordered pair of (region, block) positions, same block in both orders, plus the harmless item alone at every position; stream B operations with regions have 1-3 regions, about half of the regions of recursive-effect operations quiet (pure terminators, read / own-alloc / pure leaves); stream A: seeded proggen programs with "
+        "0-3 appended unreachable blocks, 3 input vectors each; stream C: scf.if, scf.while (quick) + scf.if with results, scf.for (thorough) under Sem and scf.index_switch, affine.if (structure + model only) with every assignment of none/load/store/call (thorough also pure/nested scf.if/load+store) to their regions, 3 input vectors taking every region. The histogram keys `*.rec.observable_only_in_later_region(_after_harmless_effects)` / `_later_block` count the operations whose fate is decided by a non-first region / block. A case is non-trivial if some variant "
         "removes at least one operation or block and at least one operation that is not a terminator stays. "
         "Distinct = distinct (spec or text)."
     ),
@@ -241,7 +249,7 @@ def _finalize(top: list[dict]) -> list[dict]:
 def spec_candidates(top: list[dict]):
     """smaller specs, one structural edit each: delete an operation (never the terminator of a block),
     delete a non-entry block, replace an operation with regions by the body of its first block,
-    drop a use"""
+    delete a region of an operation with several regions, drop a use"""
     n = len(ir.spec_labels(top))
 
     def blocks_of(t: list[dict]):
@@ -282,6 +290,13 @@ def spec_candidates(top: list[dict]):
             for blk in reg:
                 if blk:
                     blk[-1]["s"] = [x - (x > b) for x in blk[-1].get("s", []) if x != b]
+            yield _finalize(t)
+    # delete one region of an operation that has several
+    for oid, ri in regions:
+        t = _with_ids(top)
+        o = [o for o in ir.spec_labels(t) if o["_id"] == oid][0]
+        if len(o["r"]) > 1:
+            del o["r"][ri]
             yield _finalize(t)
     # drop a use
     for oi in range(n):
@@ -333,8 +348,15 @@ def failure_of(case: dict, variant: str) -> tuple[str, str, str] | None:
 def report(ctx: core.Ctx, case: dict, variant: str, bad: tuple[str, str, str], o: Outcome) -> None:
     key = bad[:2]
     small = case
+    # shrinking costs hundreds of runs: do it for the first two failures of a class only (ctx.fail keeps
+    # the smallest case per class anyway; the enumerations run in size order)
+    done = ctx.extra.setdefault("oracle_failures_by_class", {})
+    kk = " | ".join(key)
+    done[kk] = done.get(kk, 0) + 1
     try:
-        if "spec" in case:
+        if done[kk] > 2:
+            pass
+        elif "spec" in case:
             s = shrink_spec(case["spec"], lambda c: (failure_of({"spec": c}, variant) or ("", ""))[:2] == key)
             small = {"spec": s}
         elif len(case["mlir"]) < 6000:
@@ -399,6 +421,23 @@ def run_batch(ctx: core.Ctx, cases: list[dict], label: str, sem: bool) -> None:
                 ctx.count(f"{label}.with_use_cycle")
             for d in s0.ops.values():
                 ctx.count(f"{label}.op.{d['name']}")
+            # which position inside an operation with recursive effects decides that it has to stay
+            for i, d in s0.ops.items():
+                t_, s_, eff_, rec_ = ir.oracle_class(d["name"])
+                if not rec_ or t_ or s_ or eff_ not in ("pure", "read"):
+                    continue
+                if len(d["regions"]) > 1:
+                    ctx.count(f"{label}.rec.multi_region")
+                loud, quiet = s0.effect_positions(i)
+                if not loud:
+                    continue
+                first = min(loud)
+                if first[0] > 0:
+                    ctx.count(f"{label}.rec.observable_only_in_later_region")
+                    if any(q[0] < first[0] for q in quiet):
+                        ctx.count(f"{label}.rec.observable_only_in_later_region_after_harmless_effects")
+                if all(p_[1] > 0 for p_ in loud):
+                    ctx.count(f"{label}.rec.observable_only_in_later_block")
         if sem:
             ctx.programs += 1
             try:
@@ -454,8 +493,11 @@ def run_batch(ctx: core.Ctx, cases: list[dict], label: str, sem: bool) -> None:
                     return sem_differs({**case, "mlir": t}, v)
 
                 text = case["mlir"]
+                done = ctx.extra.setdefault("oracle_failures_by_class", {})
+                kk = " | ".join(key)
+                done[kk] = done.get(kk, 0) + 1
                 try:
-                    if len(text) < 6000:
+                    if len(text) < 6000 and done[kk] <= 2:
                         text = shrink_text(text, still)
                 except Exception:  # noqa: BLE001
                     text = case["mlir"]
@@ -545,6 +587,16 @@ def run(ctx: core.Ctx) -> None:
         ctx.exhaustive = True
         ctx.extra["exhaustive_scope"] = (f"all programs of one block with <= {bound} operations over the kinds "
                                          f"{list(gen.SMALL_KINDS)} (n = 3: {list(gen.SMALL_KINDS_3)}) and every choice of at most one operand per operation")
+    # effect-position family (exhaustive in its scope; see c13_gen.position_specs)
+    pos = list(gen.position_specs(full=not quick))
+    for k in range(0, len(pos), 400):
+        if ctx.time_left() < 25:
+            ctx.extra["positions_truncated_at"] = k
+            ctx.exhaustive = False
+            break
+        run_batch(ctx, pos[k:k + 400], "positions", sem=False)
+    else:
+        ctx.extra["positions_scope"] = gen.position_scope(full=not quick)
     # stream B
     nb = 350 if quick else 15000
     specs = [{"spec": gen.gen_spec(ctx.rng, max_depth=2 if i % 4 else 3)} for i in range(nb)]
@@ -564,6 +616,14 @@ def run(ctx: core.Ctx) -> None:
             break
         run_batch(ctx, texts[k:k + 40], "streamA", sem=True)
     run_real_interp(ctx, texts[: (10 if quick else 100)], "streamA")
+    # stream C: real multi-region operations with loads / stores / calls at every region position
+    for with_sem in (True, False):
+        rc = gen.region_op_texts(full=not quick, with_sem=with_sem)
+        for k in range(0, len(rc), 50):
+            if ctx.time_left() < 10:
+                ctx.extra["streamC_truncated_at"] = [with_sem, k]
+                break
+            run_batch(ctx, rc[k:k + 50], "streamC", sem=with_sem)
     run_malformed(ctx)
     ctx.sample({"spec": small[len(small) // 3]["spec"]})
     ctx.sample({"spec": specs[0]["spec"], "stats": gen.spec_stats(specs[0]["spec"])})
